@@ -24,6 +24,7 @@ import AcnProofs.Lemmas.RegistryCodec
 import AcnProofs.Lemmas.RegistryDecode
 import AcnProofs.Lemmas.RegistryDecode5
 import AcnProofs.Lemmas.RegistryDecode6
+import AcnProofs.Lemmas.RegistryDecode7
 import AcnProofs.Lemmas.RegistryWF2
 import AcnProofs.Lemmas.RegistryLawful
 import AcnModel.Gen.Serial
@@ -371,6 +372,27 @@ theorem roundtrip_resume_eq {K : Type} [Add K] [Sub K] [Mul K] [Div K] [Neg K] [
   have hd : RegistrySim.decode rd cfg (RegistrySim.ambOf s) ctx.get = some s :=
     RegistrySim.decode_of hl hwf ctx.get (fun i hi => h5 i (RegistrySim.reach_all sh cfg s href i hi))
   exact ⟨ctx, h1, h2, hd, fun n => by rw [hd]; rfl⟩
+
+/-- the hypotheses of `roundtrip_resume_eq` are NECESSARY: whenever the concrete decoder, applied to the context
+    that `to_json` writes for `s`, returns `s`, the state is well-formed and every EV object is referenced.  So
+    `WF ∧ AllRef` is exactly the set of states that survive `to_json` → `from_json`. -/
+theorem roundtrip_iff {K : Type} {sh : RegistrySim.Show K} {rd : RegistrySim.Read K}
+    (hl : RegistrySim.Lawful sh rd) (cfg : Sim.Cfg K) (s : State K) :
+    (∃ ctx, dump (RegistrySim.encode sh cfg s) RegistrySim.root = .ok ctx ∧
+        RegistrySim.decode rd cfg (RegistrySim.ambOf s) ctx.get = some s) ↔
+      (RegistrySim.WF cfg s ∧ RegistrySim.AllRef cfg s) := by
+  constructor
+  · rintro ⟨ctx, hd, h⟩
+    have href : RegistrySim.AllRef cfg s := RegistrySim.allRef_of_roundtrip hd h rfl
+    obtain ⟨ctx', h1, _, _, _, h5, _⟩ := encode_roundtrip sh cfg s
+    rw [hd] at h1
+    cases h1
+    exact ⟨RegistrySim.wf_of_decode hl (RegistrySim.ambOf s) ctx.get
+      (fun i hi => h5 i (RegistrySim.reach_all sh cfg s href i hi)) h, href⟩
+  · rintro ⟨hwf, href⟩
+    obtain ⟨ctx, h1, _, _, _, h5, _⟩ := encode_roundtrip sh cfg s
+    exact ⟨ctx, h1, RegistrySim.decode_of hl hwf ctx.get
+      (fun i hi => h5 i (RegistrySim.reach_all sh cfg s href i hi))⟩
 
 /-- `WF` is an invariant: ONE period of the full model, whatever the scheduler and the pilot application do
     (return, raise `SchedulerFailed`, reject the schedule, `InvalidRateError`, …), keeps `SInv` — static EV data
